@@ -3,7 +3,9 @@ import os
 import sys
 from fractions import Fraction as Fr
 
-from .. import hir, rmatch, reffect, redge, paths, enumeval
+import itertools
+
+from .. import hir, rmatch, reffect, redge, paths, enumeval, minirust
 from ..rmatch import closure_lits, dnf, thaw_formula, Blowup, N as EN
 from ..controls import fixture
 
@@ -53,6 +55,114 @@ def is_identity_contract(facts, key=ISID):
     res.append(('num_vertices = 2 * |inputs| (nothing but the boundary vertices)', all(numv(fs) for fs in closed)))
     res.append(('every i: the edge between input i and output i is a plain (non-Hadamard) edge', all(wires(fs) for fs in closed)))
     return res
+
+
+class _EConst:
+    """an enum constant that equals the interpreter's ('const', <def path>) whenever the last path segment agrees"""
+
+    def __init__(self, name):
+        self.name = name
+
+    def __eq__(self, o):
+        if isinstance(o, _EConst):
+            return o.name == self.name
+        return isinstance(o, tuple) and len(o) == 2 and o[0] == 'const' and str(o[1]).rsplit('::', 1)[-1] == self.name
+
+    def __ne__(self, o):
+        return not self == o
+    __hash__ = None
+
+    def __repr__(self):
+        return self.name
+
+
+def _host_graph(ins, outs, extra, edges):
+    """a read-only host graph for the interpreter: vertices = ins + outs + extra; edges {(a, b): 'N' | 'H'} (a < b)"""
+    vs = list(ins) + list(outs) + list(extra)
+
+    def et(a, b):
+        return edges.get((min(a, b), max(a, b)))
+
+    def edge_type(a):
+        t = et(a[0], a[1])
+        if t is None:
+            raise minirust.Panics('edge_type of vertices that are not connected')
+        return _EConst(t)
+    m = {
+        'inputs': lambda a: list(ins), 'outputs': lambda a: list(outs), 'num_vertices': lambda a: len(vs), 'num_edges': lambda a: len(edges),
+        'vertices': lambda a: sorted(vs), 'vertex_vec': lambda a: sorted(vs), 'contains_vertex': lambda a: a[0] in vs,
+        'edge_type_opt': lambda a: minirust.some(_EConst(et(a[0], a[1]))) if et(a[0], a[1]) else minirust.NONE,
+        'connected': lambda a: et(a[0], a[1]) is not None, 'edge_type': edge_type,
+        'degree': lambda a: sum(1 for e in edges if a[0] in e), 'neighbors': lambda a: sorted(x for e in edges if a[0] in e for x in e if x != a[0]),
+        'neighbor_vec': lambda a: sorted(x for e in edges if a[0] in e for x in e if x != a[0]),
+        'vertex_type': lambda a: _EConst('B' if (a[0] in ins or a[0] in outs) else 'Z'),
+    }
+    return minirust.Obj('graph', m, strict=False)
+
+
+def is_identity_semantics(f):
+    """is_identity evaluated on every small boundary configuration: up to 2 inputs, 2 outputs, 1 interior vertex, every assignment of
+    {none, plain, Hadamard} to the input-output pairs (plus an edge to the interior vertex).  Returns {conjunct: (ok, counterexample, n)}.
+    Soundness only: whenever the function answers true the reference conjunct must hold; a panic is reported under 'answers without panicking'."""
+    ps = [p for p in f['params'] if p.get('k') == 'Bind']
+    if len(ps) != 1:
+        raise minirust.NoEval('a single receiver expected')
+    names = ('|outputs| = |inputs|', 'num_vertices = 2 * |inputs|', 'every i: the edge between input i and output i is a plain', 'answers without panicking')
+    res = {n: [True, None, 0] for n in names}
+    total = 0
+    for ni, no, nx in itertools.product(range(3), range(3), range(2)):
+        # vertex ids deliberately not in boundary order
+        ins = [5, 2][:ni]
+        outs = [7, 3][:no]
+        extra = [9][:nx]
+        pairs = [(min(a, b), max(a, b)) for a in ins for b in outs] + [(min(a, 9), max(a, 9)) for a in (ins[:1] if nx else [])]
+        for choice in itertools.product((None, 'N', 'H'), repeat=len(pairs)):
+            edges = dict((p_, c) for p_, c in zip(pairs, choice) if c)
+            g = _host_graph(ins, outs, extra, edges)
+            it = minirust.Interp(fuel=3000)
+            total += 1
+            desc = 'inputs %s, outputs %s, %d vertices, edges %s' % (ins, outs, ni + no + nx, edges)
+            try:
+                try:
+                    got = it.ev(f['hir'], {ps[0]['id']: g})
+                except minirust._Return as ex:
+                    got = ex.v
+            except minirust.Panics as ex:
+                r = res['answers without panicking']
+                r[2] += 1
+                if r[0]:
+                    r[0], r[1] = False, 'panics (%s) on %s' % (ex, desc)
+                continue
+            if not isinstance(got, bool):
+                raise minirust.NoEval('result %r' % (got,))
+            res['answers without panicking'][2] += 1
+            conj = {'|outputs| = |inputs|': ni == no, 'num_vertices = 2 * |inputs|': ni + no + nx == 2 * ni,
+                    'every i: the edge between input i and output i is a plain': all(edges.get((min(a, b), max(a, b))) == 'N' for a, b in zip(ins, outs))}
+            for n, holds in conj.items():
+                r = res[n]
+                r[2] += 1
+                if got and not holds and r[0]:
+                    r[0], r[1] = False, 'answers true on %s' % desc
+    return dict((k, tuple(v)) for k, v in res.items()), total
+
+
+def is_identity_obligations(ck, facts, why=''):
+    """D1, decided by evaluation; the must-fact reading of the accepting condition is the fallback when the evaluator declines."""
+    key = ISID
+    try:
+        sem, total = is_identity_semantics(facts['fns'][key])
+        for name, (ok, cex, n) in sem.items():
+            ck.ob('R-MATCH', ISID + '/' + name, ok, ck.site(ISID), 'is_identity%s, evaluated on %d small diagrams: %s' % (why, total, cex), sample={'conjunct': name, 'diagrams': n})
+        ck.floor('R-MATCH-is_identity-diagrams', total, 1000)
+        return
+    except (minirust.NoEval, minirust.Proceed, TypeError, KeyError, IndexError) as ex:
+        why2 = str(ex)
+    r = is_identity_contract(facts)
+    if r is None:
+        ck.ob3('R-MATCH', ISID + '/analysable', None, ck.site(ISID), 'is_identity is neither evaluable (%s) nor is its accepting condition analysable' % why2)
+        return
+    for name, ok in r:
+        ck.ob3('R-MATCH', ISID + '/' + name.split(' (')[0], True if ok else None, ck.site(ISID), 'is_identity%s: not evaluable (%s) and the accepting condition does not establish: %s' % (why, why2, name), sample={'conjunct': name})
 
 
 def bounds_obligations(f, param):
@@ -106,12 +216,7 @@ def run(ck):
     ck.not_decided('tensor equalities (values)', 'cups/caps inside the plugged graph')
     # D1
     ck.fn(ISID)
-    r = is_identity_contract(facts)
-    if r is None:
-        ck.violation('R-MATCH', ISID + '/analysable', ck.site(ISID), 'accepting condition of is_identity not analysable')
-    else:
-        for name, ok in r:
-            ck.ob('R-MATCH', ISID + '/' + name.split(' (')[0], ok, ck.site(ISID), 'is_identity answers true without establishing: %s' % name, sample={'conjunct': name})
+    is_identity_obligations(ck, facts)
     # D2
     nb = 0
     for key in ('graph::GraphLike::plug_inputs', 'graph::GraphLike::plug_outputs'):
